@@ -118,7 +118,7 @@ def evalCmp (v : Option Val) (op : Op) (l : Lit) : Tri × Classes :=
     | some (.dec q _) => (Tri.ofBool (cmpRat op q lq), [])
     | some (.str s) =>
       match numericText? s with
-      | some q => (Tri.ofBool (cmpRat op q lq), ["numeric-string-value-numeric-literal"])
+      | some q => (Tri.ofBool (cmpRat op q lq), [])   -- numeric text is compared by value (engine: repair c02-4)
       | none => (if op == .ne then .either else .no, [])
     | some (.bool _) => (if op == .ne then .either else .no, [])
   | .str p =>
@@ -170,14 +170,6 @@ def Filter.fields : Filter → List String
   | .and a b => a.fields ++ b.fields
   | .or a b => a.fields ++ b.fields
   | .not a => a.fields
-
-/-- dataset-level class: a compared field holds numbers in some events and non-numeric text in others
-(the writer then may store the numbers of a block as their decimal text) -/
-def mixedTextFields (evs : List Event) (fs : List String) : Classes :=
-  (fs.eraseDups.filter (fun f =>
-    evs.any (fun e => match e.get f with | some (.str s) => (numericText? s).isNone | some (.bool _) => true | _ => false) &&
-    evs.any (fun e => match e.get f with | some (.int _) | some (.dec _ _) => true | some (.str s) => (numericText? s).isSome | _ => false))).map
-    (fun _ => "number-and-text-share-column")
 
 end SigModel.Spec
 
